@@ -221,7 +221,7 @@ func init() {
 	fw.Register(&fw.Prop{
 		ID: "C10", Title: "Results are JSON-representable; ErrUndefined iff no value; EvalBytes agrees",
 		Rule: rule + "; plus malformed input byte strings for EvalBytes (truncations, trailing garbage, bare words, invalid UTF-8 are those that encoding/json itself rejects)",
-		Assumptions: []string{"a nested typed-nil *interface{} (the port's JSON null) and nil slices marshal as null and are tolerated (documented wart, counted in evidence)", "EvalBytes/Eval agreement is judged on deterministic programs only", "the 'ErrUndefined iff no value' clause is judged against the reference evaluator in the model-based checks (C01, C02, C12-C15), here only its consistency (nil result with ErrUndefined)"},
+		Assumptions: []string{"a nested typed-nil *interface{} (the port's documented representation of JSON null, jsonata-test/README.md) marshals as null and is tolerated inside containers (counted in evidence); at the top level, and nil slices anywhere, are violations", "EvalBytes/Eval agreement is judged on deterministic programs only", "the 'ErrUndefined iff no value' clause is judged against the reference evaluator in the model-based checks (C01, C02, C12-C15), here only its consistency (nil result with ErrUndefined)"},
 		Plan: func(tier string, seed uint64) *fw.Plan {
 			nSweep := sweepSize()
 			nRand := int64(54000)
@@ -324,9 +324,15 @@ func c10Run(r *fw.Rec, c evalCase) {
 			bad = true
 		}
 		for k, v := range notes {
-			if k == "typed-nil-null" || k == "nil-slice" {
+			if k == "typed-nil-null" {
 				r.Count("tolerated:"+k, int64(v))
 			}
+		}
+		if notes["nil-slice"] > 0 {
+			// an array the language itself sees as empty ($type "array", $count 0)
+			// whose JSON encoding is null, not []
+			r.Violation("empty-array-encodes-as-null", "the result contains a nil slice: the empty array it stands for is encoded as null by json.Marshal/EvalBytes; result "+obs.ShowNorm(n), nil)
+			bad = true
 		}
 		if pi := fw.Guard(func() { evalJSON, merr = json.Marshal(o.Val) }); pi != nil {
 			r.Violation("marshal-panic", "json.Marshal of the result panicked: "+pi.Value, nil)
